@@ -104,7 +104,8 @@ func AsStreamProcessorFactory(f ProcessorFactory) h2.StreamProcessorFactory {
 // Processor processes gRPC traffic.
 type Processor interface {
 	h2.HeaderProcessor
-	// Message receives serialized messages.
+	// Message receives serialized messages. A call with nil data and streamEnded set signals an
+	// end-of-stream that carries no message; forwarding it ends the stream without adding a message.
 	Message(data []byte, streamEnded bool) error
 }
 
@@ -283,6 +284,13 @@ func (e *emitter) Header(
 }
 
 func (e *emitter) Message(data []byte, streamEnded bool) error {
+	if data == nil && streamEnded {
+		// This is the adapter's notification of an end-of-stream that carries no message (an empty
+		// DATA frame with END_STREAM). Only the END_STREAM flag is forwarded: emitting a length
+		// prefix here would add a zero-length message that the source never sent.
+		return e.sink.Data(nil, true)
+	}
+
 	// Applies compression to `data` depending on `adapter`'s state.
 	if e.adapter.compressed {
 		switch e.adapter.encoding {
